@@ -252,3 +252,38 @@ def frontmatter(kind: str) -> VF.FunctionContract:
         raises=(),
         replay_hints=[(lambda fm=fm: {"doc": _build("Document")(name="N", raw_frontmatter=fm, grammar_version="6.0.0", sections=[_build("Assignment")(key="K", value={"int": 1, "str": "x", "bool": True, "null": None}[kind])]), "format_options": None}) for fm in ("  name: x\n  description: y", "name: x\n", "\nname: x", "name: x  ", "\tname: x")],
     )
+
+
+# ---- emit_value on scalars: the text handed to the layout above -------------------------------------------------------------------
+NQ = z3.Function("NEEDS_QUOTES", z3.StringSort(), z3.BoolSort())
+
+
+def _needs_quotes_contract(I, self_obj, pos, kw, st):
+    yield st, NQ(pos[0] if V.is_z3(pos[0]) else z3.StringVal(pos[0]))
+
+
+def value_scalar(kind: str) -> VF.FunctionContract:
+    """emit_value(int) is the decimal text of the integer, emit_value(bool) is true / false, emit_value(None) is null,
+    emit_value(str) is the string itself when needs_quotes says no and a double-quoted text otherwise (which strings need
+    quotes, and that the quoted text un-escapes to the string, are the R obligations on needs_quotes and the escape chain)"""
+    p = {"int": VF.Int(), "bool": VF.Bool(), "null": VF.Const(None), "str": VF.Str()}[kind]
+    posts = {}
+    if kind == "int":
+        posts["decimal-text-of-the-integer"] = lambda a, r: S.str_eq(r, S.str_of(a.value)) if S.symbolic(a.value) else r == str(a.value)
+    elif kind == "bool":
+        posts["true-or-false"] = lambda a, r: S.str_eq(r, z3.If(a.value, z3.StringVal("true"), z3.StringVal("false")) if S.symbolic(a.value) else ("true" if a.value else "false"))
+    elif kind == "null":
+        posts["null"] = lambda a, r: S.str_eq(r, "null")
+    else:
+
+        def post(a, r):
+            v = a.value
+            if S.symbolic(v, r):
+                return z3.Or(z3.And(z3.Not(NQ(v)), r == v), z3.And(NQ(v), z3.PrefixOf(z3.StringVal('"'), r), z3.SuffixOf(z3.StringVal('"'), r), z3.Length(r) >= 2))
+            from octave_mcp.core.emitter import needs_quotes
+
+            return (r == v) if not needs_quotes(v) else (r.startswith('"') and r.endswith('"') and len(r) >= 2)
+
+        posts["bare-iff-not-needs-quotes-else-double-quoted"] = post
+    return VF.FunctionContract(EMITTER, "emit_value", label=f"#scalar-{kind}", params={"value": p, "indent": VF.Const(0)}, posts=posts, callee_contracts={EMITTER + ":needs_quotes": _needs_quotes_contract}, raises=(),
+                               replay_hints=[(lambda v=v: {"value": v, "indent": 0}) for v in {"int": (0, -1, 42, 2**70), "bool": (True, False), "null": (None,), "str": ("x", "a b", "", "true", "007", 'q"q', "a\nb")}[kind]])
